@@ -34,7 +34,7 @@ CFG = {'streams': [{'name': 'C08',
  'partial': ['lazy_block_order_iso (whole-run invariance up to graph isomorphism) is proved on the fragment: scoped variables only as definitions with a capture as scope and a '
              'scoped-free value and as reads in deferred positions (node/source/sink of attr and edge statements, values of non-shorthand attributes, '
              'print arguments, list literals of these); NOT covered: scoped reads inside thunks (values of local variables or of other scoped definitions), '
-             'as call arguments or set elements (values would mix nodes of several blocks: isomorphism up to re-sorting of sets), non-capture scopes; called functions graph-pure and equivariant under '
+             'as call arguments or set elements (values would mix nodes of several blocks: isomorphism up to re-sorting of sets), definitions with non-capture scopes; called functions graph-pure and equivariant under '
              'order-preserving renamings (all stdlib functions except node, format, join), globals only mention nodes of a closed initial graph, '
              'no debug attributes (with a location attribute an edge created by two stanzas keeps the attribute of the statement evaluated first: '
              'the property as stated fails there), no cancellation budget. The fuel needed by the permuted run may be larger (a thunk may be forced '
